@@ -14,12 +14,20 @@ SMALL = [
 ]
 # which two locations the exhaustive alphabet toggles, per small program
 SMALL_LOCS = [[("main", 2), ("main", 6)], [("main", 1), ("q", 3)], [("main", 5), ("main", 8)]]
+# thorough tier only: three more programs (WHILE + nested call, GOTO loop with label line, two files with equal line numbers)
+SMALL += [
+    ("while+nested-call", {"main": "PROGRAM g IN a DO\nx0 := a + 1\nEND\nPROGRAM f IN a DO\nx0 := RUN g WITH RUN g WITH a END END\nEND\nn := 2 ;\nWHILE n != 0 DO\n"
+                                   "x := RUN f WITH x END ;\nn := n - 1\nEND"}),
+    ("goto-loop", {"main": "n := 3 ;\ntop : IF n = 0 THEN GOTO fin ;\nn := n - 1 ;\nx := x + 2 ;\nGOTO top ;\nfin : y := x"}),
+    ("equal-line-numbers", {"main": 'include "lib"\nx := RUN h WITH 2 END ;\ny := x', "lib": "PROGRAM h IN a DO\nx0 := a + 3\nEND"}),
+]
+SMALL_LOCS += [[("main", 5), ("main", 9)], [("main", 2), ("main", 4)], [("lib", 2), ("main", 2)]]
 
 
 def plan(tier, seed, pid):
     specs = []
     L_ = 5 if tier == "quick" else 6
-    for pi in range(len(SMALL)):
+    for pi in range(3 if tier == "quick" else len(SMALL)):
         # split the exhaustive set by first two ops to spread it over the workers
         for a in range(8):
             for b in range(8):
